@@ -22,6 +22,14 @@ func propC19(a *Analysis, r *Registry) {
 	X := b.X
 	S := X.S
 	const rB = "B-C19 CHK"
+
+	// the dominator tree's accessors read the tables Dom fills
+	defer func() {
+		b := NewB(a, r)
+		b.Formula(rB, "graph/graphalg.(*DomTree).IDom", "graph/graphalg.(*DomTree).IDom", []string{"t", "n"}, nil, 0, "t.idom[n]", nil)
+		b.Formula(rB, "graph/graphalg.(*DomTree).NumNodes", "graph/graphalg.(*DomTree).NumNodes", []string{"t"}, nil, 0, "len(t.idom)", nil)
+		b.Formula(rB, "graph/graphalg.(*DomTree).Out", "graph/graphalg.(*DomTree).Out", []string{"t", "n"}, nil, 0, "t.children[n]", nil)
+	}()
 	pkg := "graph/graphalg."
 	if fn := b.Fn(rB, pkg+"IDom"); fn != nil {
 		name := pkg + "IDom"
